@@ -309,3 +309,16 @@ Fixpoint all_own (s : state) (ts : list tid) {struct ts} : bool :=
   | [] => true
   | t :: ts' => own_frame t (thr s t) && all_own s ts'
   end.
+
+(* ---- monitor of harness op muxcut (2-3 concurrent operations on one Conn, the first answer
+   cut after k bytes).  Result classes as [outcome_code], plus 5 = still running at the
+   watchdog, 6 = returned a foreign value.
+     mon_conn_cut  every pending call returned an error (classes 3 / 4), the call made
+                   afterwards failed too and put no request on the wire.
+   Model side: the step that abandons the read (ReadDone _ RFatal, BatchClose _ RFatal,
+   Deadline, PeekFail) closes the connection AND releases the read lock, so every other waiter's
+   LockR is enabled and its peek can only fail (C06_conn_fatal_releases_lock,
+   C06_conn_closed_is_final). *)
+Definition is_err_class (c : nat) : bool := Nat.eqb c 3 || Nat.eqb c 4.
+Definition mon_conn_cut (res : list nat) (post_class post_new : nat) : bool :=
+  forallb is_err_class res && is_err_class post_class && Nat.eqb post_new 0.
